@@ -137,7 +137,16 @@ func (m *MonC09) OnLog(w *World, e *LogEntry) {
 
 func (m *MonC09) OnStepEnd(w *World, step int) {
 	m.checkCounts(w)
-	// state invariant at quiescence: a client holds a resource only under a live event subscription
+}
+
+// heldWithoutSubscription: at the quiescent end of the history (nothing pending,
+// every queued frame delivered) a client holds a resource only under a live
+// event subscription. During a history the gateway may already have released a
+// resource whose removal is still on its way to the client in a queued event.
+func (m *MonC09) heldWithoutSubscription(w *World) {
+	if w.mq.PendingCount() > 0 || m.EndChecked {
+		return
+	}
 	for _, c := range w.Clients {
 		if !c.Dialed || c.EOF || c.Closed {
 			continue
@@ -149,14 +158,15 @@ func (m *MonC09) OnStepEnd(w *World, step int) {
 			n, _ := w.expandRID(c, rid)
 			if m.live[n] == 0 && !m.deleted[n] && !m.reported[n] {
 				m.reported[n] = true
-				m.viols = append(m.viols, Violation{Property: "C09", Class: "unsubscribed_while_client_holds", Conn: c.Idx, RID: rid, T: w.now(), Step: step,
-					Message: fmt.Sprintf("at the quiescent end of step %d c%d holds %s but the gateway has no event subscription for %s", step, c.Idx, rid, n)})
+				m.viols = append(m.viols, Violation{Property: "C09", Class: "unsubscribed_while_client_holds", Conn: c.Idx, RID: rid, T: w.now(), Step: w.step,
+					Message: fmt.Sprintf("at the quiescent end of the history c%d holds %s but the gateway has no event subscription for %s", c.Idx, rid, n)})
 			}
 		}
 	}
 }
 
 func (m *MonC09) OnEnd(w *World) []Violation {
+	m.heldWithoutSubscription(w)
 	if m.zeroAndBack {
 		m.class("resubscribed_after_release")
 		m.nontriv = true
@@ -174,6 +184,7 @@ func (m *MonC09) EndState(w *World) {
 	if w.Failed != "" || w.Deadlock != "" || !w.started {
 		return
 	}
+	m.heldWithoutSubscription(w)
 	for _, c := range w.Clients {
 		if c.Dialed && !c.Closed && !c.EOF {
 			w.execEpilogue(Op{K: "close", C: c.Idx})
